@@ -400,7 +400,7 @@ func TestC17(t *testing.T) {
 	}
 
 	// ---- direct calls of the size functions on boundary arguments ----
-	nfun := env.Pick(300, 6000)
+	nfun := env.Pick(300, 4000)
 	if search {
 		nfun = 1500
 	}
@@ -458,7 +458,7 @@ func TestC17(t *testing.T) {
 	}
 
 	// ---- random histories ----
-	nh := env.Pick(500, 12000)
+	nh := env.Pick(500, 6000)
 	if search {
 		nh = 2500
 	}
